@@ -173,15 +173,22 @@ theorem openStore_ok4 (c : Cfg) (hc : c.Legal) (d : Disk) (P pf N : Nat)
 section
 variable {c : Cfg} {U : List (Bytes × Bytes)} {s : SState} {spec : Spec} {n B : Nat}
 
-theorem step_reopen4 (hc : c.Legal) (hU : Univ c.kind U) (hI : Inv c U s spec n B) (hX : YInv c s)
+/-- the reopen step with everything exposed: the fully flushed state `(m2, d2)` Close reaches, how the
+    reopened state relates to it (`Reopened`), and what became of the freelist -/
+theorem step_reopen4_full (hc : c.Legal) (hU : Univ c.kind U) (hI : Inv c U s spec n B) (hX : YInv c s)
     (hn : n < 1073741824) (hB : B < two31) (order : List Nat) (us : Bool) :
-    ∃ m' d', stepS s (.reopen order us) = (⟨s.cfg, m', d'⟩, .gc) ∧
+    ∃ m1 d1 m2 d2 m' d', priFlush s.m s.d = some (m1, d1) ∧
+      idxFlush m1 d1 (fixOrder order s.m.inext.keys) = (m2, d2) ∧
+      stepS s (.reopen order us) = (⟨s.cfg, m', d'⟩, .gc) ∧
       Inv c U ⟨s.cfg, m', d'⟩ spec n B ∧ YInv c ⟨s.cfg, m', d'⟩ ∧
       (∀ b, idxRecords m' d' b = idxRecords s.m s.d b) ∧
-      (∀ blk k v, priGet s.m s.d blk = .got k v → priGet m' d' blk = .got k v) := by
+      (∀ blk k v, priGet s.m s.d blk = .got k v → priGet m' d' blk = .got k v) ∧
+      Reopened m2 d2 m' d' ∧ m'.flpool = [] ∧
+      d'.free = some (d2.free.getD [] ++ m2.flpool.flatMap blockBytes) ∧ d'.freeGc = d2.freeGc ∧
+      d'.snap = none := by
   obtain ⟨m1, d1, m2, d2, p1, i1, hI2, hX2, hin, hpn, _, hR, hP, _, _⟩ :=
     flushBoth_inv4 hU hI hX hn hB order
-  obtain ⟨fr, hcl, _⟩ := storeClose_eq p1 i1
+  obtain ⟨fr, hcl, hfr⟩ := storeClose_eq p1 i1
   have hcfg : s.cfg = c := hX.cfg
   have hIp : PInv m2 d2 := hI2.p
   have hIi : IInv m2 d2 := hI2.i
@@ -327,7 +334,8 @@ theorem step_reopen4 (hc : c.Legal) (hU : Univ c.kind U) (hI : Inv c U s spec n 
         rw [a2] at hf2'
         rw [g1]
         exact hpf3 hk f hf1 hf2'
-  refine ⟨_, _, ?_, by rw [hcfg]; exact hI', by rw [hcfg]; exact hX', ?_, ?_⟩
+  refine ⟨m1, d1, m2, d2, _, _, p1, i1, ?_, by rw [hcfg]; exact hI', by rw [hcfg]; exact hX', ?_, ?_,
+    hr, rfl, ?_, ?_, rfl⟩
   · unfold stepS
     simp only [hcl, e5, hcfg, o1]
   · intro b
@@ -335,6 +343,22 @@ theorem step_reopen4 (hc : c.Legal) (hU : Univ c.kind U) (hI : Inv c U s spec n 
     exact hR b
   · intro blk k v hg
     exact hr.priGet hIp hpn (hP blk k v hg)
+  · show some (d5.free.getD []) = _
+    rw [← hfr, ← e5]
+    cases us <;> rfl
+  · show d5.freeGc = d2.freeGc
+    rw [← e5]
+    cases us <;> rfl
+
+theorem step_reopen4 (hc : c.Legal) (hU : Univ c.kind U) (hI : Inv c U s spec n B) (hX : YInv c s)
+    (hn : n < 1073741824) (hB : B < two31) (order : List Nat) (us : Bool) :
+    ∃ m' d', stepS s (.reopen order us) = (⟨s.cfg, m', d'⟩, .gc) ∧
+      Inv c U ⟨s.cfg, m', d'⟩ spec n B ∧ YInv c ⟨s.cfg, m', d'⟩ ∧
+      (∀ b, idxRecords m' d' b = idxRecords s.m s.d b) ∧
+      (∀ blk k v, priGet s.m s.d blk = .got k v → priGet m' d' blk = .got k v) := by
+  obtain ⟨_, _, _, _, m', d', _, _, h3, h4, h5, h6, h7, _⟩ :=
+    step_reopen4_full hc hU hI hX hn hB order us
+  exact ⟨m', d', h3, h4, h5, h6, h7⟩
 
 end
 
